@@ -115,6 +115,16 @@ Definition last_dot_name (origin : str) : str := last_or (split_on "."%char orig
 Definition pkg_of_origin (origin : str) : str := removelast (rev (drop_prefix (rev (last_dot_name origin)) (rev origin))).
 
 (** a parameter function of the generated helpers or of the fixture *)
+(** strconv.Atoi: optional sign, decimal digits, 64-bit range; the result is printed canonically ("007" is 7, "-0" is 0) *)
+Definition atoi (v : str) : option Z :=
+  if is_int_text v then
+    let '(neg, ds) := match v with "-"%char :: r => (true, r) | "+"%char :: r => (false, r) | _ => (false, v) end in
+    let n := fold_left (fun acc c => (acc * 10 + (code c - 48))%N) ds 0%N in
+    let z := if neg then (- Z.of_N n)%Z else Z.of_N n in
+    if ((-9223372036854775808 <=? z) && (z <=? 9223372036854775807))%Z then Some z else None
+  else None.
+Definition dec_of_Z (z : Z) : str := if (z <? 0)%Z then "-"%char :: dec_of_N (Z.to_N (- z)) else dec_of_N (Z.to_N z).
+
 Definition call_fn (st : rt) (origin args label : str) : result value :=
   let a := parse_args args in
   let fn := last_dot_name origin in
@@ -131,7 +141,10 @@ Definition call_fn (st : rt) (origin args label : str) : result value :=
     match a with
     | VStr k :: rest =>
       match lookup k (rt_env st) with
-      | Some v => if is_int_text v then ROk (VNum (s "int") (match v with "+"%char :: r => r | _ => v end)) else RErr (s "cannot cast env(" ++ quote k ++ s ") to int")
+      | Some v => match atoi v with
+                  | Some z => ROk (VNum (s "int") (dec_of_Z z))
+                  | None => RErr (s "cannot cast env(" ++ quote k ++ s ") to int")
+                  end
       | None => match rest with VNum _ d :: _ => ROk (VNum (s "int") d) | _ => RErr (s "environment variable " ++ quote k ++ s " does not exist") end
       end
     | _ => RErr (s "cannot call provider")
